@@ -147,6 +147,16 @@ static void run_case(char* line) {
 
 int main(void) {
   static char line[1 << 16];
+  {
+    /* The dispositions and the mask of the signals used here are inherited from whoever runs the
+     * check (nohup ignores SIGHUP, a supervisor may block signals): start from the defaults. */
+    sigset_t all;
+    int k;
+    for (k = 0; k < 4; k++) signal(wsigs[k], SIG_DFL);
+    signal(SIGCHLD, SIG_DFL);
+    sigemptyset(&all);
+    sigprocmask(SIG_SETMASK, &all, NULL);
+  }
   while (fgets(line, sizeof line, stdin)) {
     pid_t pid;
     int st = 0;
